@@ -334,7 +334,7 @@ CORRESPONDENCE_ONLY = [
     "computed by the driver from the argument categories, no theorem",
 ]
 THEOREMS = {
-    "pair": ["Tetl.C20.Props.pair_rels_eq", "Tetl.C20.Props.pair_lt_iff", "Tetl.C20.Props.copyAll_eq", "Tetl.C20.Props.moveAll_eq",
+    "pair": ["Tetl.C20.Props.pair_rels_eq_partial", "Tetl.C20.Props.pair_lt_iff", "Tetl.C20.Props.copyAll_eq", "Tetl.C20.Props.moveAll_eq",
              "Tetl.C20.Props.assignAll_eq", "Tetl.C20.Props.moveAssignAll_eq", "Tetl.C20.Props.swapAll_eq", "Tetl.C20.Props.getAll_eq"],
     "tuple": ["Tetl.C20.Props.tuple_eq_iff", "Tetl.C20.Props.copyAll_eq", "Tetl.C20.Props.moveAll_eq", "Tetl.C20.Props.swapAll_eq",
               "Tetl.C20.Props.getAll_eq", "Tetl.C20.Props.apply_eq"],
@@ -346,3 +346,14 @@ THEOREMS = {
             "Tetl.C20.Props.empty_never_calls", "Tetl.C20.Props.call_once"],
     "new": ["Tetl.C20.Props.run_refines"],
 }
+
+# defects met while building this check that live in files owned by other properties (not repaired here; the harness works around them)
+NOTES_FOR_OTHER_PROPERTIES = [
+    "C15: etl::is_constructible<T, A> uses the functional cast T(declval<A>()), a C-style cast for one argument: "
+    "is_constructible_v<int&, etl::tuple<int&>&> is true, so etl::tuple<int&> r(nonconst_tuple) selects the element-wise constructor "
+    "and does not compile (harness copies from a const tuple)",
+    "C15: etl::is_nothrow_swappable<T const> is a hard error instead of false (reached through the noexcept specification of pair::swap), "
+    "so std::is_swappable_v<etl::pair<int, int const>> does not compile",
+    "C15: etl::unwrap_ref_decay has its condition inverted and the primary etl::unwrap_reference is undefined "
+    "(bind_front now uses detail::unwrap_decay_t of make_tuple.hpp instead)",
+]
